@@ -108,7 +108,11 @@ def _run_unary_sync(
             # is the method's own and gets the ordinary error path.
             _validate_call_signature(info.name, kwargs, info.param_types, info.param_defaults, info.params_schema)
             _validate_params(info.name, kwargs, info.param_types)
-        except (pa.ArrowInvalid, TypeError, StopIteration, RpcError, VersionError) as exc:
+        except (pa.ArrowInvalid, OSError, TypeError, StopIteration, RpcError, VersionError) as exc:
+            # OSError: pyarrow reports a corrupt IPC header / flatbuffer as
+            # ArrowIOError (an OSError), which is just as much a malformed
+            # request body as ArrowInvalid.  Failures of external-location
+            # fetches never surface as OSError (they are wrapped in RuntimeError).
             raise _RpcHttpError(exc, status_code=HTTPStatus.BAD_REQUEST) from exc
         except Exception as exc:
             # Resolving an ExternalLocation is part of reading the request but
